@@ -31,7 +31,7 @@ theorem xorBytes_comm (a b : Bytes) : xorBytes a b = xorBytes b a := by
 theorem xorBytes_take_succ (a b : Bytes) (i : Nat) (ha : i < a.length) (hb : i < b.length) :
     xorBytes (a.take (i + 1)) (b.take (i + 1))
       = xorBytes (a.take i) (b.take i) ++ [a[i] ^^^ b[i]] := by
-  rw [List.take_succ, List.take_succ, List.getElem?_eq_getElem ha, List.getElem?_eq_getElem hb]
+  rw [List.take_add_one, List.take_add_one, List.getElem?_eq_getElem ha, List.getElem?_eq_getElem hb]
   simp only [Option.toList]
   rw [GCM.xorBytes_append _ _ _ _ (by rw [List.length_take, List.length_take]; omega)]
   rfl
